@@ -59,9 +59,16 @@ def main():
                 env = dict(os.environ, VERIF_HARNESS=MUT + "/harness", VERIF_EVIDENCE=MUT + "/evidence", VERIF_REPLAYS=MUT + "/replays", VERIF_TIER="quick")
                 t0 = time.time()
                 p = subprocess.run([os.path.join(VERIF, "bin", "check"), pid, "--tier", "quick"], capture_output=True, text=True, env=env, timeout=3000)
-                wall = time.time() - t0
                 rc = p.returncode
                 out = p.stdout
+                # a mutation may belong to a neighbouring property's check as well (meta.json "also_checks")
+                for other in meta.get("also_checks", []):
+                    if rc == 1:
+                        break
+                    p = subprocess.run([os.path.join(VERIF, "bin", "check"), other, "--tier", "quick"], capture_output=True, text=True, env=env, timeout=3000)
+                    if p.returncode == 1:
+                        rc, out, pid = 1, p.stdout, other
+                wall = time.time() - t0
             viol = [l for l in out.splitlines() if l.startswith("VIOLATION")]
             sigs = sorted(set(l.strip().split(":")[0].replace("signature=", "") for l in out.splitlines() if l.strip().startswith("signature=")))
             drift = [l for l in out.splitlines() if l.startswith("DRIFT")]
